@@ -1399,6 +1399,7 @@ func (m *Manager) AddPoolTransactions(txns []types.Transaction) (known bool, err
 		return known, err
 	}
 
+	poolLen, poolWeight := len(m.txpool.txns), m.txpool.weight
 	for _, txn := range txns {
 		txid := txn.ID()
 		if _, ok := m.txpool.indices[txid]; ok {
@@ -1406,6 +1407,12 @@ func (m *Manager) AddPoolTransactions(txns []types.Transaction) (known bool, err
 		}
 		ts := m.store.SupplementTipTransaction(txn)
 		if err := consensus.ValidateTransaction(m.txpool.ms, txn, ts); err != nil {
+			// none of the set may stay behind: remove the members added so far
+			for _, added := range m.txpool.txns[poolLen:] {
+				delete(m.txpool.indices, added.ID())
+			}
+			clear(m.txpool.txns[poolLen:])
+			m.txpool.txns, m.txpool.weight = m.txpool.txns[:poolLen], poolWeight
 			m.txpool.ms = nil // force revalidation next time the pool is queried
 			return false, fmt.Errorf("transaction %v conflicts with pool: %w", txid, err)
 		}
@@ -1479,12 +1486,19 @@ func (m *Manager) AddV2PoolTransactions(basis types.ChainIndex, txns []types.V2T
 		return known, err
 	}
 
+	poolLen, poolWeight := len(m.txpool.v2txns), m.txpool.weight
 	for _, txn := range txns {
 		txid := txn.ID()
 		if _, ok := m.txpool.indices[txid]; ok {
 			continue // skip transactions already in the pool
 		}
 		if err := consensus.ValidateV2Transaction(m.txpool.ms, txn); err != nil {
+			// none of the set may stay behind: remove the members added so far
+			for _, added := range m.txpool.v2txns[poolLen:] {
+				delete(m.txpool.indices, added.ID())
+			}
+			clear(m.txpool.v2txns[poolLen:])
+			m.txpool.v2txns, m.txpool.weight = m.txpool.v2txns[:poolLen], poolWeight
 			m.txpool.ms = nil // force revalidation next time the pool is queried
 			return false, fmt.Errorf("transaction %v conflicts with pool: %w", txid, err)
 		}
